@@ -493,13 +493,12 @@ theorem segment_median_spec (nxt : Array Nat) (outs : List Nat) (data : Array In
     obtain ⟨e, he, hb⟩ := hb2
     exact Or.inr ⟨hs, e, he, by rw [hb1, ← hb]⟩
 
-/-- **slope** over the exclusive segment (the mask takes part only when `maskUsed`) -/
+/-- **slope** over the exclusive segment (same cells as average / median, river mask included) -/
 theorem segment_slope_spec (nxt : Array Nat) (outs : List Nat) (elevtn distnc : Array Int) (lstsq : Bool)
-    (mask : Option (Array Bool)) (maskUsed : Bool) (res : PerOutlet (Int × Int))
-    (h : segSlope nxt outs elevtn distnc lstsq mask maskUsed = some res) (k s : Nat) (hk : outs[k]? = some s) :
+    (mask : Option (Array Bool)) (res : PerOutlet (Int × Int))
+    (h : segSlope nxt outs elevtn distnc lstsq mask = some res) (k s : Nat) (hk : outs[k]? = some s) :
     (s = nxt.size ∧ res[k]? = some none) ∨
-    (s ≠ nxt.size ∧ ∃ cells, exclWalk nxt (outletFlags nxt.size outs) (if maskUsed then mask else none)
-        (nxt.size + 1) s = some cells ∧
+    (s ≠ nxt.size ∧ ∃ cells, exclWalk nxt (outletFlags nxt.size outs) mask (nxt.size + 1) s = some cells ∧
       res[k]? = some (some (slopeNumDen cells elevtn distnc lstsq))) := by
   unfold segSlope at h
   obtain ⟨_, hget⟩ := mapM_option_get _ _ _ h
@@ -528,21 +527,25 @@ theorem segment_down_total (ds : Array Nat) (seq : List Nat) (isOut : Array Bool
     exact ⟨_, lenWalk_complete ds isOut mask K0 (ds.size + 1) s (by omega) h2 h1⟩
 
 /-- **slope around the outlet pixel** (`fixed_length_slope`, `subgrid_rivslp(direction="both")`): the cells
-used start at the first cell downstream of the outlet pixel that is a pit or lies at least `half` below
-it, and follow the main upstream path up to the first cell without main upstream cell or at least `half`
-above the outlet pixel -/
+used start at the first cell downstream of the outlet pixel that is a pit, is masked out, or lies at
+least `half` below it, and follow the main upstream path up to the first cell that has no main upstream
+cell, whose main upstream cell is masked out, or that lies at least `half` above the outlet pixel -/
 theorem fixed_length_slope_spec (ds usMain : Array Nat) (outs : List Nat) (elevtn distnc : Array Int)
-    (half : Int) (lstsq : Bool) (res : PerOutlet (Int × Int))
-    (h : fixedLengthSlope ds usMain outs elevtn distnc half lstsq = some res) (k s : Nat)
+    (half : Int) (lstsq : Bool) (mask : Option (Array Bool)) (res : PerOutlet (Int × Int))
+    (h : fixedLengthSlope ds usMain outs elevtn distnc half lstsq mask = some res) (k s : Nat)
     (hk : outs[k]? = some s) :
     (s = ds.size ∧ res[k]? = some none) ∨
     (s ≠ ds.size ∧ ∃ Kd Ku,
-      (∀ j, j < Kd → distnc[iterA ds j s]! > distnc[s]! - half ∧ ds[iterA ds j s]! ≠ iterA ds j s) ∧
-      (distnc[iterA ds Kd s]! ≤ distnc[s]! - half ∨ ds[iterA ds Kd s]! = iterA ds Kd s) ∧
+      (∀ j, j < Kd → distnc[iterA ds j s]! > distnc[s]! - half ∧ ds[iterA ds j s]! ≠ iterA ds j s ∧
+        maskAt mask (iterA ds j s) = true) ∧
+      (distnc[iterA ds Kd s]! ≤ distnc[s]! - half ∨ ds[iterA ds Kd s]! = iterA ds Kd s ∨
+        maskAt mask (iterA ds Kd s) = false) ∧
       (∀ j, j < Ku → distnc[iterA usMain j (iterA ds Kd s)]! < distnc[s]! + half ∧
-        usMain[iterA usMain j (iterA ds Kd s)]! ≠ usMain.size) ∧
+        usMain[iterA usMain j (iterA ds Kd s)]! ≠ usMain.size ∧
+        maskAt mask usMain[iterA usMain j (iterA ds Kd s)]! = true) ∧
       (distnc[s]! + half ≤ distnc[iterA usMain Ku (iterA ds Kd s)]! ∨
-        usMain[iterA usMain Ku (iterA ds Kd s)]! = usMain.size) ∧
+        usMain[iterA usMain Ku (iterA ds Kd s)]! = usMain.size ∨
+        maskAt mask usMain[iterA usMain Ku (iterA ds Kd s)]! = false) ∧
       res[k]? = some (some (slopeNumDen ((List.range (Ku + 1)).map fun j => iterA usMain j (iterA ds Kd s))
         elevtn distnc lstsq))) := by
   unfold fixedLengthSlope at h
@@ -552,20 +555,23 @@ theorem fixed_length_slope_spec (ds usMain : Array Nat) (outs : List Nat) (elevt
   · rw [if_pos hs] at hb2
     exact Or.inl ⟨hs, by rw [hb1, ← Option.some.inj hb2]⟩
   · rw [if_neg hs] at hb2
-    cases hd : flsDown ds distnc (distnc[s]! - half) (ds.size + 1) s with
+    cases hd : flsDown ds distnc mask (distnc[s]! - half) (ds.size + 1) s with
     | none => simp [hd] at hb2
     | some d =>
       simp only [hd, Option.map_eq_some_iff] at hb2
       obtain ⟨cells, hu, hb⟩ := hb2
-      obtain ⟨Kd, hdd, hpre, hend⟩ := flsDown_spec ds distnc _ _ _ _ hd
-      obtain ⟨Ku, hcells, hpre', hend'⟩ := flsUp_spec usMain distnc _ _ _ _ hu
+      obtain ⟨Kd, hdd, hpre, hend⟩ := flsDown_spec ds distnc mask _ _ _ _ hd
+      obtain ⟨Ku, hcells, hpre', hend'⟩ := flsUp_spec usMain distnc mask _ _ _ _ hu
       subst hdd
       exact Or.inr ⟨hs, Kd, Ku, hpre, hend, hpre', hend', by rw [hb1, ← hb, hcells]⟩
 
 /-! ### non-vacuity (segments, outlets) -/
 -- chain 4 → 3 → 2 → 1 → 0, unit spacing, window of half-length 1 around cell 2: cells 1, 2, 3
-example : fixedLengthSlope #[0, 0, 1, 2, 3] #[1, 2, 3, 4, 5] [2, 5] #[0, 1, 3, 6, 10] #[0, 1, 2, 3, 4] 1 false =
+example : fixedLengthSlope #[0, 0, 1, 2, 3] #[1, 2, 3, 4, 5] [2, 5] #[0, 1, 3, 6, 10] #[0, 1, 2, 3, 4] 1 false none =
     some [some (-5, -2), none] := by decide
+-- with cell 3 masked out the window is cells 1, 2 only
+example : fixedLengthSlope #[0, 0, 1, 2, 3] #[1, 2, 3, 4, 5] [2, 5] #[0, 1, 3, 6, 10] #[0, 1, 2, 3, 4] 1 false
+    (some #[true, true, true, false, true]) = some [some (-2, -1), none] := by decide
 -- chain 4 → 3 → 2 → 1 → 0 (pit), outlets at 4, 2 and a missing one; walking downstream
 example : exclWalk #[0, 0, 1, 2, 3] (outletFlags 5 [4, 5, 2]) none 6 4 = some [4, 3] := by decide
 example : lenWalk #[0, 0, 1, 2, 3] (outletFlags 5 [4, 5, 2]) none 6 4 = some 2 := by decide
@@ -574,8 +580,11 @@ example : segAverage #[0, 0, 1, 2, 3] [4, 5, 2] #[5, -9999, 6, 2, 4] #[1, 1, 1, 
     some [some (10, 4), none, some (11, 2)] := by decide
 example : segMedian #[0, 0, 1, 2, 3] [4, 5, 2] #[5, -9999, 6, 2, 4] (-9999) (some #[true, true, true, true, true]) =
     some [some (some 6), none, some (some 11)] := by decide
-example : segSlope #[0, 0, 1, 2, 3] [4, 5, 2] #[0, 1, 3, 6, 10] #[0, 1, 2, 3, 4] true none false =
+example : segSlope #[0, 0, 1, 2, 3] [4, 5, 2] #[0, 1, 3, 6, 10] #[0, 1, 2, 3, 4] true none =
     some [some (4, 1), none, some (9, 6)] := by decide
+-- the river mask cuts the segment of outlet 2 before the masked-out cell 1: cells [2] only
+example : segSlope #[0, 0, 1, 2, 3] [4, 5, 2] #[0, 1, 3, 6, 10] #[0, 1, 2, 3, 4] false
+    (some #[true, false, true, true, true]) = some [some (4, 1), none, some (0, 1)] := by decide
 -- 2×4 fine raster, cell size 2: both rows drain east to the pit 7; coarse cells 0 and 1
 example : outletsModel #[1, 2, 3, 7, 5, 6, 7, 7] #[1, 2, 3, 4, 1, 2, 3, 8]
     #[true, true, true, true, true, true, true, true] false 4 2 1 2 = some [1, 7] := by decide
